@@ -12,8 +12,10 @@ ap = argparse.ArgumentParser()
 ap.add_argument('--per-file', type=int, default=5)
 ap.add_argument('--seed', type=int, default=1)
 ap.add_argument('--only', default='')
+ap.add_argument('--no-byteorder', action='store_true')
 args = ap.parse_args()
 random.seed(args.seed)
+NOBO = args.no_byteorder
 
 ENV = dict(os.environ, GOFLAGS='-mod=mod', GOPROXY='off', GOSUMDB='off', GOTOOLCHAIN='local', VERIF_OUT_DIR='/tmp/mut-out')
 MAP = {
@@ -75,6 +77,8 @@ for f, checks in MAP.items():
         if SKIP_LINE.search(line) or '"' in line and ('fmt.' in line or 'Sprintf' in line):
             continue
         for pat, rep in OPS:
+            if NOBO and 'Endian' in rep:
+                continue
             for m in re.finditer(pat, line):
                 # not inside a string literal or comment
                 pre = line[:m.start()]
